@@ -81,6 +81,10 @@ class _Sym:
                         self.modvals.setdefault(m.id, []).append(None)
             elif isinstance(n, ast.AugAssign) and isinstance(n.target, ast.Name):
                 self.modvals.setdefault(n.target.id, []).append(None)
+        for n in ast.walk(tree):
+            if isinstance(n, ast.Global):                    # rebound from inside a function: not a constant
+                for g in n.names:
+                    self.modvals.setdefault(g, []).append(None)
         self.depth = 0
 
     # ---- expressions: list of (set, value); the sets partition S
@@ -1226,6 +1230,7 @@ def _module_state(tree, roots, label):
                 or (container(v) and read_only(k)))
 
     consts = {k for k, vs in bound.items() if len(vs) == 1 and vs[0] is not None and harmless(k, vs[0])}
+    consts -= {g for n in ast.walk(tree) if isinstance(n, ast.Global) for g in n.names}     # rebound from inside a function
     flagged, seen, todo = [], set(), [r for r in roots]
     while todo:
         f = todo.pop(0)
